@@ -545,6 +545,7 @@ func (conf Root) AllIntegrations(ctx context.Context, pg wpg.Conn) ([]Integratio
 	for _, ig := range uniq {
 		res = append(res, ig)
 	}
+	verifOrderIntegrations(res)
 	return res, nil
 }
 
